@@ -54,6 +54,13 @@ class RaceFault(SymFault):
         SymFault.__init__(self, msg, "race")
 
 
+def is_memory_fault(exc):
+    """the faults C10 is about: out-of-range index, read of uninitialised memory, use of a never-assigned variable"""
+    if isinstance(exc, SymFault):
+        return exc.kind in ("oob", "poison")
+    return isinstance(exc, (IndexError, UnboundLocalError, NameError))
+
+
 EX = None  # current explorer
 
 
@@ -92,6 +99,8 @@ class Stats:
         self.reach = 0
         self.fallbacks = 0
         self.witness_skipped = 0
+        self.checks_skipped = 0
+        self.bounds_checks = 0
 
     def add(self, o):
         for k, v in o.__dict__.items():
@@ -105,7 +114,8 @@ class Stats:
 
 class Explorer:
     def __init__(self, max_paths=200000, query_timeout_ms=30000, max_decisions=4000, want_witness=False,
-                 deadline=None, shard=None, fast_ms=None, ack_first=False):
+                 deadline=None, shard=None, fast_ms=None, ack_first=False, memory_only=False):
+        self.memory_only = memory_only    # C10: only the array model's monitors count; functional assertions are skipped
         self.ack_first = ack_first
         self.fast_ms = fast_ms        # stage-1 time-out of a query before the Ackermannized fresh-solver fallback
         self.shard = shard            # (index, count, depth): explore only subtrees whose first `depth` decisions hash to index
@@ -311,6 +321,9 @@ class Explorer:
 
     def check(self, name, cond, known=None, detail=None):
         """assert cond on this path: query pc & !cond.  known: list of (finding_id, region_cond)."""
+        if self.memory_only:
+            self.stats.checks_skipped = getattr(self.stats, "checks_skipped", 0) + 1
+            return True
         self.stats.checks += 1
         if isinstance(cond, bool):
             if cond:
@@ -361,6 +374,9 @@ class Explorer:
 
     def fault(self, exc, known=None):
         """record a fault (exception escaping the code under test) with a model of the path."""
+        if self.memory_only and not is_memory_fault(exc):
+            return
+        self.stats.checks += 1
         r = self._check()
         if r != z3.sat:
             return
